@@ -158,10 +158,10 @@ Qed.
 
 (* C15: a coin that is not output 0 or 1 of a pool request of this block, and not the proposer reward,
    is exactly the same after sealing *)
-Theorem seal_leaves_other_coins s a s' k :
+Lemma seal_leaves_other_coins_gen s a s' k :
   seal SO s a = Ok s' ->
   (forall t, In t (sorted_txs s) -> is_pool_request t = true -> k <> key0 t /\ k <> key1 t) ->
-  k <> coin_key (so_reward_id SO (s_height s)) 0 ->
+  (a <> None -> k <> coin_key (so_reward_id SO (s_height s)) 0) ->
   s_coins s' !! k = s_coins s !! k.
 Proof.
   intros H Hu Hrw. unfold seal in H. inv_bind H as s1 H1.
@@ -190,9 +190,16 @@ Proof.
   destruct a as [act|].
   - unfold collect_proposer_fee in H. inv_bind H as v Hv. injection H as <-.
     rewrite coins_put_coin; [cbn [s_coins set_fees set_mult]; rewrite E2; exact E1|].
-    cbn [s_height set_fees set_mult]. rewrite Hh. exact Hrw.
+    cbn [s_height set_fees set_mult]. rewrite Hh. apply Hrw. discriminate.
   - injection H as <-. rewrite E2. exact E1.
 Qed.
+
+Theorem seal_leaves_other_coins s a s' k :
+  seal SO s a = Ok s' ->
+  (forall t, In t (sorted_txs s) -> is_pool_request t = true -> k <> key0 t /\ k <> key1 t) ->
+  k <> coin_key (so_reward_id SO (s_height s)) 0 ->
+  s_coins s' !! k = s_coins s !! k.
+Proof. intros H Hu Hrw. eapply seal_leaves_other_coins_gen; eauto. Qed.
 End Seal.
 
 (* what a pool request is *)
